@@ -5,6 +5,7 @@ import (
 	"errors"
 	"fmt"
 	"io"
+	"io/fs"
 	"regexp"
 	"strings"
 
@@ -56,6 +57,7 @@ type c17Sc struct {
 	Debug   bool     `json:"debug"`
 	MaxK    int      `json:"max_k,omitempty"` // cap on enumerated fault positions (default 64)
 	Warm    bool     `json:"warm,omitempty"`  // the engine has rendered the program before; auto-reload is on and every template has changed on "disk" since (timestamp-aware loader), so the observed render re-reads what it had cached
+	FS      bool     `json:"fs,omitempty"`    // the templates live on the simulated disk behind the stock FileSystemLoader; a failing read is the loader's failure
 	Via     string   `json:"via,omitempty"`   // "" = Engine.Render, "renderto" = Engine.RenderTo, "load" = Load + Template.Render, "compiled" = the main template reaches the engine as compiled bytes
 }
 
@@ -100,6 +102,7 @@ func (propC17) Gen(seed uint64, ex map[string]bool) interface{} {
 	}
 	sc := &c17Sc{Prog: genProgram(r, f), Pool: pick(r, []int{simrt.PoolLIFO, simrt.PoolFresh, simrt.PoolRandom}), Debug: r.P(15), Via: pick(r, []string{"", "", "", "renderto", "load", "compiled"})}
 	sc.Warm = r.P(20)
+	sc.FS = !sc.Warm && r.P(20)
 	if ex["tier:thorough"] {
 		sc.MaxK = 256
 	}
@@ -188,7 +191,26 @@ func c17Engine(sc *c17Sc, sp *Spies, mainSrc string) *twig.Engine {
 		src[sc.Prog.Main] = mainSrc
 	}
 	var tsl *simTSLoader
-	if sc.Warm {
+	if sc.FS {
+		w := simrt.W
+		names := make([]string, 0, len(src))
+		for n := range src {
+			names = append(names, n)
+		}
+		sortStrings(names) // fixed order: a harness map walk would differ between processes
+		for _, n := range names {
+			w.FSWrite("tpl/"+n+".twig", []byte(src[n]), w.NowNS())
+		}
+		w.FSHook = func(op, path string) error {
+			if op == "read" {
+				if err := sp.hit("loader", "fs-read:"+path); err != nil {
+					return &fs.PathError{Op: "read", Path: path, Err: err}
+				}
+			}
+			return nil
+		}
+		e.RegisterLoader(twig.NewFileSystemLoader([]string{"tpl"}))
+	} else if sc.Warm {
 		tsl = &simTSLoader{simLoader: simLoader{src: src, sp: sp}, mt: 1_700_000_100}
 		e.RegisterLoader(tsl)
 		e.SetAutoReload(true)
@@ -268,6 +290,9 @@ func (propC17) Run(scI interface{}) (o *Outcome) {
 	w := simrt.Begin(simrt.Config{PreemptDen: 4, Seed: 17, PoolPolicy: sc.Pool, MapOrder: simrt.OrderSorted, ClockStart: 1_700_000_000e9, ClockStep: 1e6})
 	defer simrt.End()
 	defer underScheduler(w, o)()
+	if sc.FS {
+		w.UseSimFS()
+	}
 	twig.SetDebugWriter(io.Discard)
 	saved := twig.VerifSwapGlobals(nil)
 	defer twig.VerifSwapGlobals(saved)
